@@ -60,7 +60,9 @@ func modes(x *mon.Ctx) {
 		if err != nil {
 			x.HarnessError("%s: %v", sp.name, err)
 		}
-		for _, kind := range []string{"random", "valid-truncated", "valid-bitflip", "valid-extended"} {
+		// "random": random bytes of EVERY length 0..maxLen; "valid-cut": one genuine ciphertext cut to EVERY shorter
+		// length (0..tagSize+48); the other kinds sample
+		for _, kind := range []string{"random", "valid-cut", "valid-truncated", "valid-bitflip", "valid-extended"} {
 			for _, hi := range []bool{true, false} {
 				c := x.Begin("modes Open aead=%s ciphertexts=%s lengths 0..%d placement=%s", sp.name, kind, maxLen, place(hi))
 				if c == nil {
@@ -79,12 +81,20 @@ func modes(x *mon.Ctx) {
 						ct = c.R.Bytes(n)
 					default:
 						pt := c.R.Bytes(n)
+						if kind == "valid-cut" {
+							pt = c.R.Bytes(49)
+						}
 						var sealed []byte
 						if p := mon.Try(func() { sealed = a.Seal(nil, nonce, pt, aad) }); p != nil {
 							cf.add("AEAD.Seal/"+sp.name, kind, pt, false, p)
 							continue
 						}
 						switch kind {
+						case "valid-cut":
+							if n >= len(sealed) {
+								continue
+							}
+							ct = sealed[:n]
 						case "valid-truncated":
 							ct = sealed[:c.R.Intn(len(sealed))]
 						case "valid-bitflip":
